@@ -218,7 +218,10 @@ def _eq(a, b):
 
 
 def _short(v):
-    r = repr(v)
+    try:
+        r = repr(v)
+    except ValueError:          # an int beyond the interpreter's int->str digit limit
+        r = "<%s, unprintable>" % type(v).__name__
     return r if len(r) < 80 else r[:77] + "..."
 
 
